@@ -123,6 +123,16 @@ def run(ctx):
         key = (area.ymin, area.ymax, area.xmin, area.xmax, pos.y, pos.x)
         if canon(rt.cached_compute_rays_fancy(pos, area)) != cold[key]:
             ctx.violation('cached_compute_rays_fancy differs from the uncached computation', {'area': key[:4], 'origin': key[4:]})
+    for area, pos in order:
+        if (area.ymin, area.xmin) == (0, 0) and area.height * area.width <= 1000:
+            empty = wire.mkgrid(tuple(tuple(gen.FLOOR for _ in range(area.width)) for _ in range(area.height)))
+            shown = vf.raytracing(empty, pos)
+            ctx.case(('unobstructed', area.height, area.width, pos.y, pos.x), True, None)
+            ctx.count('unobstructed view', f'{area.height}x{area.width}' if area.height * area.width > 49 else '<= 7x7')
+            if not bool(shown.all()):
+                hidden = [(int(y), int(x)) for y, x in zip(*(~shown).nonzero())][:5]
+                ctx.violation(f'an unobstructed ray-traced {area.height}x{area.width} view from {(pos.y, pos.x)} does not show everything: hidden {hidden}',
+                              {'area': (area.ymin, area.ymax, area.xmin, area.xmax), 'origin': (pos.y, pos.x)})
     for area, pos in order[:40]:
         if (area.ymin, area.xmin) == (0, 0) and area.height * area.width <= 169:
             g = wire.mkgrid(gen.rand_grid(r, area.height, area.width, floor_bias=0.7))
